@@ -15,6 +15,19 @@ def sh(cmd, cwd=None, env=None):
 
 def main():
     only = sys.argv[1:]
+    # --rows FILE: (with prefixes) also dump the rows as JSON; --merge F1 F2 ...: write
+    # REVERIFY.md from such files (lets several processes share the work)
+    rows_out = None
+    if len(only) >= 2 and only[0] == "--rows":
+        rows_out, only = only[1], only[2:]
+    if only and only[0] == "--merge":
+        rows, by_design = [], set()
+        for f in only[1:]:
+            d = json.load(open(f))
+            rows += [tuple(r) for r in d["rows"]]
+            by_design |= set(d["by_design"])
+        rows.sort()
+        return finish(rows, by_design, [], "1", "REVERIFY.md")
     seed = "1"
     if len(only) >= 2 and only[0] == "--seed":
         seed, only = only[1], only[2:]
@@ -57,6 +70,12 @@ def main():
             sh(["git", "-C", "/repo", "worktree", "remove", "--force", wt])
             shutil.rmtree(wt, ignore_errors=True)
     sh(["git", "-C", "/repo", "worktree", "prune"])
+    if rows_out:
+        json.dump({"rows": rows, "by_design": sorted(by_design)}, open(rows_out, "w"))
+    return finish(rows, by_design, only, seed, out_md)
+
+
+def finish(rows, by_design, only, seed, out_md):
     if not only:
         with open(os.path.join(ROOT, "seeded", out_md), "w") as f:
             f.write("# Quick-tier checks (seed %s) re-run against every stored seeded change\n\n" % seed + "| seeded change | check | verdict |\n|---|---|---|\n")
